@@ -200,6 +200,70 @@ Build107(f) ==
   \o <<"32B=USD:" \o (IF f.sumok THEN ToString(100 * f.ntx) ELSE ToString(100 * f.ntx + 7))>>
   \o (IF f.chC THEN <<"71F=USD:" \o ToString(f.ntx), "71G=USD:" \o ToString(f.ntx)>> ELSE <<>>)
 
+(* ================================ MT104 ================================== *)
+(* direct debit / request for direct debit: like MT107 plus the RFDD regime (C1, C12), an optional      *)
+(* settlement sequence C and field 19                                                                     *)
+Base104 == [ntx |-> 1, e23 |-> "A", codeA |-> "AUTH", codeB |-> "AUTH", info |-> FALSE, cr |-> "A", f21E |-> "none",
+            f26T |-> "none", f77B |-> "none", f71A |-> "none", f52 |-> "none", ip |-> "none", f72 |-> FALSE, f21R |-> FALSE,
+            seqC |-> TRUE, chB |-> FALSE, chC |-> FALSE, f33 |-> "none", f36 |-> FALSE, sumok |-> TRUE, cur2 |-> "same",
+            f19 |-> "none"]
+Facts104 ==
+     {[Base104 EXCEPT !.ntx = n, !.e23 = a, !.codeA = c, !.cr = b, !.seqC = d, !.f21R = r] :
+         n \in {1, 2}, a, b \in Place, c \in {"AUTH", "RFDD"}, d, r \in BOOLEAN}
+  \cup {[Base104 EXCEPT !.ntx = 2, !.f21E = a, !.cr = b] : a \in Place, b \in {"A", "all", "first"}}
+  \cup {[Base104 EXCEPT !.ntx = 2, !.f26T = a, !.f77B = b] : a, b \in {"none", "A", "first", "Aall"}}
+  \cup {[Base104 EXCEPT !.ntx = 2, !.f71A = a, !.f52 = b, !.ip = c] : a, b, c \in {"none", "A", "first", "Aall"}}
+  \cup {[Base104 EXCEPT !.codeA = a, !.info = b, !.f72 = c] : a \in {"AUTH", "NAUT", "OTHR", "RTND", "RFDD", "ZZZZ"}, b, c \in BOOLEAN}
+  \cup {[Base104 EXCEPT !.e23 = "all", !.ntx = 2, !.codeB = a, !.info = b] : a \in {"AUTH", "OTHR", "RFDD", "RTND", "ZZZZ"}, b \in BOOLEAN}
+  \cup {[Base104 EXCEPT !.e23 = "Aall", !.codeA = "RFDD", !.seqC = FALSE, !.f21R = r, !.f21E = a, !.f52 = b, !.chB = c] :
+         r, c \in BOOLEAN, a, b \in {"none", "first"}}
+  \cup {[Base104 EXCEPT !.chB = a, !.chC = b, !.seqC = c] : a, b, c \in BOOLEAN}
+  \cup {[Base104 EXCEPT !.f33 = a, !.f36 = b] : a \in {"none", "same", "diffcur", "diffamt"}, b \in BOOLEAN}
+  \cup {[Base104 EXCEPT !.ntx = 2, !.sumok = a, !.cur2 = b, !.f19 = c] : a \in BOOLEAN, b \in {"same", "diff"}, c \in {"none", "ok", "bad"}}
+Expected104(f) ==
+  LET a23 == InA(f.e23)
+      rfdd == a23 /\ f.codeA = "RFDD"
+      chC == f.chC /\ f.seqC
+      f19 == IF f.seqC THEN f.f19 ELSE "none"
+  IN (IF (rfdd /\ ~InEveryB(f.e23, f.ntx)) \/ (a23 /\ ~rfdd /\ InAnyB(f.e23)) \/ (~a23 /\ ~InEveryB(f.e23, f.ntx))
+      THEN {"C75"} ELSE {})
+  \cup (IF (InA(f.cr) /\ InAnyB(f.cr)) \/ (~InA(f.cr) /\ ~InEveryB(f.cr, f.ntx)) THEN {"C76"} ELSE {})
+  \cup (IF \E p \in {f.f21E, f.f26T, f.f77B, f.f71A, f.f52, f.ip} : InA(p) /\ InAnyB(p) THEN {"D73"} ELSE {})
+  \cup (IF (InA(f.f21E) /\ ~InA(f.cr)) \/ (\E i \in 1..f.ntx : InB(f.f21E, i) /\ ~InB(f.cr, i)) THEN {"D77"} ELSE {})
+  \cup (IF (a23 /\ f.codeA = "RTND") # f.f72 THEN {"C82"} ELSE {})
+  \cup (IF f.chB # chC THEN {"D79"} ELSE {})
+  \cup (IF f.f33 = "same" THEN {"D21"} ELSE {})
+  \cup (IF (f.f33 = "diffcur" /\ ~f.f36) \/ (f.f33 # "diffcur" /\ f.f36) THEN {"D75"} ELSE {})
+  \cup (IF f.seqC /\ ((f.sumok /\ f19 # "none") \/ (~f.sumok /\ f19 = "none")) THEN {"D80"} ELSE {})
+  \cup (IF f19 = "bad" THEN {"C01"} ELSE {})
+  \cup (IF f.ntx = 2 /\ f.cur2 = "diff" THEN {"C02"} ELSE {})
+  \cup (IF rfdd /\ (InAnyB(f.f21E) \/ InAnyB(f.cr) \/ InAnyB(f.f52) \/ f.chB \/ f.seqC) THEN {"C96"} ELSE {})
+  \cup (IF ~rfdd /\ (f.f21R \/ ~f.seqC) THEN {"C96"} ELSE {})
+  \cup (IF (a23 /\ f.codeA = "ZZZZ") \/ (InAnyB(f.e23) /\ f.codeB \notin {"AUTH", "NAUT", "OTHR"}) THEN {"T47"} ELSE {})
+  \cup (IF f.info /\ ((a23 /\ f.codeA # "OTHR") \/ (InAnyB(f.e23) /\ f.codeB # "OTHR")) THEN {"D81"} ELSE {})
+Tx104(f, i) ==
+  <<"21">> \o Opt107(f.e23, "23E=" \o f.codeB \o (IF f.info THEN "/INFO" ELSE ""), FALSE, i) \o Opt107(f.f21E, "21E", FALSE, i)
+  \o <<"32B=" \o (IF i = 2 /\ f.cur2 = "diff" THEN "EUR" ELSE "USD") \o ":100">>
+  \o Opt107(f.ip, "50C", FALSE, i) \o Opt107(f.cr, "50K", FALSE, i) \o Opt107(f.f52, "52A", FALSE, i)
+  \o <<"59=acct">> \o Opt107(f.f26T, "26T", FALSE, i) \o Opt107(f.f77B, "77B", FALSE, i)
+  \o (IF i = 1 /\ f.f33 = "same" THEN <<"33B=USD:100">> ELSE IF i = 1 /\ f.f33 = "diffcur" THEN <<"33B=EUR:90">>
+      ELSE IF i = 1 /\ f.f33 = "diffamt" THEN <<"33B=USD:90">> ELSE <<>>)
+  \o Opt107(f.f71A, "71A=SHA", FALSE, i)
+  \o (IF f.chB THEN <<"71F=USD:1", "71G=USD:1">> ELSE <<>>)
+  \o (IF i = 1 /\ f.f36 THEN <<"36">> ELSE <<>>)
+Build104(f) ==
+  <<"20">> \o (IF f.f21R THEN <<"21R">> ELSE <<>>)
+  \o Opt107(f.e23, "23E=" \o f.codeA \o (IF f.info THEN "/INFO" ELSE ""), TRUE, 0) \o Opt107(f.f21E, "21E", TRUE, 0)
+  \o <<"30">> \o Opt107(f.ip, "50C", TRUE, 0) \o Opt107(f.cr, "50K", TRUE, 0) \o Opt107(f.f52, "52A", TRUE, 0)
+  \o Opt107(f.f26T, "26T", TRUE, 0) \o Opt107(f.f77B, "77B", TRUE, 0) \o Opt107(f.f71A, "71A=SHA", TRUE, 0)
+  \o (IF f.f72 THEN <<"72">> ELSE <<>>)
+  \o Tx104(f, 1) \o (IF f.ntx = 2 THEN Tx104(f, 2) ELSE <<>>)
+  \o (IF f.seqC
+      THEN <<"32B=USD:" \o (IF f.sumok THEN ToString(100 * f.ntx) ELSE ToString(100 * f.ntx + 7))>>
+           \o (IF f.f19 = "ok" THEN <<"19=" \o ToString(100 * f.ntx)>> ELSE IF f.f19 = "bad" THEN <<"19=" \o ToString(100 * f.ntx + 3)>> ELSE <<>>)
+           \o (IF f.chC THEN <<"71F=USD:1", "71G=USD:1">> ELSE <<>>)
+      ELSE <<>>)
+
 (* ================================ MT110 ================================== *)
 Facts110 == {[n |-> n, cur2 |-> c] : n \in {1, 2, 10, 11}, c \in {"same", "diff"}}
 Expected110(f) == (IF f.n > 10 THEN {"T10"} ELSE {}) \cup (IF f.n >= 2 /\ f.cur2 = "diff" THEN {"C02"} ELSE {})
@@ -309,17 +373,17 @@ Minimal(t) == CASE t \in {"111"} -> <<"20", "21", "30", "32A=USD:100">>
                 [] t = "900" -> <<"20", "21", "25", "32A=USD:100">>
 
 (* ================================ dispatch =============================== *)
-Ruled == {"101", "107", "103", "110", "202", "204", "205", "210", "910", "920", "935", "940", "941", "942", "950", "192"}
-Facts(t) == CASE t = "101" -> Facts101 [] t = "107" -> Facts107 [] t = "103" -> Facts103 [] t = "110" -> Facts110 [] t = "202" -> Facts202 [] t = "204" -> Facts204
+Ruled == {"101", "104", "107", "103", "110", "202", "204", "205", "210", "910", "920", "935", "940", "941", "942", "950", "192"}
+Facts(t) == CASE t = "101" -> Facts101 [] t = "104" -> Facts104 [] t = "107" -> Facts107 [] t = "103" -> Facts103 [] t = "110" -> Facts110 [] t = "202" -> Facts202 [] t = "204" -> Facts204
               [] t = "205" -> Facts205 [] t = "210" -> Facts210 [] t = "910" -> Facts910 [] t = "920" -> Facts920
               [] t = "935" -> Facts935 [] t = "940" -> Facts940 [] t = "941" -> Facts941 [] t = "942" -> Facts942
               [] t = "950" -> Facts950 [] t = "192" -> Facts192 [] OTHER -> {[none |-> TRUE]}
-Expected(t, f) == CASE t = "101" -> Expected101(f) [] t = "107" -> Expected107(f) [] t = "103" -> Expected103(f) [] t = "110" -> Expected110(f) [] t = "202" -> Expected202(f)
+Expected(t, f) == CASE t = "101" -> Expected101(f) [] t = "104" -> Expected104(f) [] t = "107" -> Expected107(f) [] t = "103" -> Expected103(f) [] t = "110" -> Expected110(f) [] t = "202" -> Expected202(f)
               [] t = "204" -> Expected204(f) [] t = "205" -> Expected205(f) [] t = "210" -> Expected210(f)
               [] t = "910" -> Expected910(f) [] t = "920" -> Expected920(f) [] t = "935" -> Expected935(f)
               [] t = "940" -> Expected940(f) [] t = "941" -> Expected941(f) [] t = "942" -> Expected942(f)
               [] t = "950" -> Expected950(f) [] t = "192" -> Expected192(f) [] OTHER -> {}
-Build(t, f) == CASE t = "101" -> Build101(f) [] t = "107" -> Build107(f) [] t = "103" -> Build103(f) [] t = "110" -> Build110(f) [] t = "202" -> Build202(f)
+Build(t, f) == CASE t = "101" -> Build101(f) [] t = "104" -> Build104(f) [] t = "107" -> Build107(f) [] t = "103" -> Build103(f) [] t = "110" -> Build110(f) [] t = "202" -> Build202(f)
               [] t = "204" -> Build204(f) [] t = "205" -> Build205(f) [] t = "210" -> Build210(f)
               [] t = "910" -> Build910(f) [] t = "920" -> Build920(f) [] t = "935" -> Build935(f)
               [] t = "940" -> Build940(f) [] t = "941" -> Build941(f) [] t = "942" -> Build942(f)
@@ -336,8 +400,8 @@ RulesTotal == Expected(mt, facts) \subseteq {"D75", "E01", "E02", "E06", "C81", 
                                              "E18", "E44", "E45", "T36", "T48", "D97", "E46", "D98", "D67", "T10", "C68",
                                              "C01", "C06", "T88", "C22", "C23", "C40", "T14", "C27", "C25",
                                              "D54", "D60", "D61", "D62", "D68", "D64", "D65", "T47", "D66", "D86", "D73", "D77",
-                                             "C82", "D79", "D21", "D81", "D80"}
-BaselineValid == Expected103(Base103) = {} /\ Expected101(Base101) = {} /\ Expected107(Base107) = {}
+                                             "C82", "D79", "D21", "D81", "D80", "C75", "C76", "C96"}
+BaselineValid == Expected103(Base103) = {} /\ Expected101(Base101) = {} /\ Expected107(Base107) = {} /\ Expected104(Base104) = {}
 
 Emit == EmitCases => PrintT(ToJson([mt |-> mt, toks |-> Build(mt, facts), exp |-> Expected(mt, facts), facts |-> facts]))
 =============================================================================
